@@ -32,6 +32,9 @@ CONFIGS = {
     'bool0':   ('vf::act0_bool', 'bool0', 'vf::lcontrol',    True,  2),
     'mustif':  ('tao::pegtl::nothing', None, 'vf::mi_control', True, 0),
     'mustif_bool': ('vf::act_bool', 'bool', 'vf::mi_control', True, 2),
+    'statectl': ('tao::pegtl::nothing', None, 'vf::sc_control', True, 0),
+    'statectl_bool': ('vf::act_bool', 'bool', 'vf::sc_control', True, 2),
+    'statectl_void0': ('vf::act0_void', 'void0', 'vf::sc_control', True, 0),
 }
 ROF = {'mustif': (1, 101), 'mustif_bool': (1, 101)}
 
@@ -47,7 +50,7 @@ def queries(ctx, prefix, grammars, configs, N, K=3, modes=('ar', 'ao', 'nr'), in
             wrappers = []
             for m in modes:
                 w = 'w_%s_%s_%s' % (gname, tag, m)
-                wl.append('VF_WRAP( %s, %s, %s, %s, %s, %s%s )' % (w, gtext, AM[m[0]], RM[m[1]], act, ctl, ', vf::lazy_in' if lazy else ''))
+                wl.append('%s( %s, %s, %s, %s, %s, %s%s )' % ('VF_WRAP_HS' if tag.startswith('statectl') else 'VF_WRAP', w, gtext, AM[m[0]], RM[m[1]], act, ctl, ', vf::lazy_in' if lazy else ''))
                 wrappers.append((w, 1 if m[0] == 'a' else 0, 1 if m[1] == 'r' else 0, m))
             text = WRAP_HEAD % {'includes': '\n'.join('#include <%s>' % i for i in includes), 'preamble': preamble} + '\n'.join(wl) + '\n'
             unit = ctx.unit('%s_%s_%s%s' % (prefix, gname, tag, '_lazy' if lazy else ''), text=text)
@@ -56,7 +59,7 @@ def queries(ctx, prefix, grammars, configs, N, K=3, modes=('ar', 'ao', 'nr'), in
             em = opts.get('evmax', evmax)
             h = ctx.write('h_%s_%s%s.c' % (gname, tag, '_lazy' if lazy else ''),
                           evgen.harness_text(gtext, wrappers, n, K, doc, action=kind, unwind=unw, maxres=opts.get('maxres', maxres), vetomax=vmax,
-                                             evmax=em, action_unwind=action_unwind, reach=reach, lazy=lazy, rof=ROF.get(tag, ())))
+                                             evmax=em, action_unwind=action_unwind, reach=reach, lazy=lazy, rof=ROF.get(tag, ()), statectl=tag.startswith('statectl')))
             for m in modes:
                 qs.append(vf.Query('%s%s/%s/%s' % (gname, '.lazy' if lazy else '', tag, m), unit, h, unwind=n + 3, mem_gb=opts.get('mem_gb', 2),
                                    unwindset=['ev_setup.1:13', 'ev_setup.0:%d' % (n + 2), 'ev_compare.0:%d' % (em + 1)],
